@@ -64,7 +64,9 @@ def encode_binary(mats, endian="<", bit64=False, layout="dense", strings=None, t
         out.extend(body)
         out.extend(struct.pack(endian + "i", len(body)))
 
+    layouts = layout
     for mi, m in enumerate(mats):
+        layout = layouts[mi] if isinstance(layouts, (list, tuple)) else layouts  # one layout per matrix is allowed
         A = np.asarray(m["A"])
         nrow, ncol = A.shape
         mtype = m["mtype"]
@@ -103,7 +105,7 @@ def encode_binary(mats, endian="<", bit64=False, layout="dense", strings=None, t
             rec(struct.pack(endian + "3" + ("q" if bit64 else "i"), ncol + 1, 1, 1) + _values_bytes(np.array([one]), 1 if mtype in (1, 3) else 2, endian, bit64))
         else:  # pyYeti's own writer: 2 words holding sqrt(2) as a double (32-bit keys)
             rec(struct.pack(endian + "3" + ("q" if bit64 else "i"), ncol + 1, 1, 2 if not bit64 else 1) + struct.pack(endian + "d", 2 ** 0.5))
-        truth.append(dict(name=m["name"].lower(), shape=(nrow, ncol), form=m["form"], mtype=mtype, start=start, stop=len(out)))
+        truth.append(dict(name=m["name"].lower(), shape=(nrow, ncol), form=m["form"], mtype=mtype, start=start, stop=len(out), layout=layout))
     return bytes(out), truth
 
 
@@ -122,6 +124,8 @@ def encode_ascii(mats, numlen=16, digits=9, perline=5, dchar="E", layout="dense"
     expected = []
     iw = 16 if int16 else 8
 
+    layouts, fmt0 = layout, (numlen, digits, perline)
+
     def numbers(vals, mtype):
         v = np.asarray(vals)
         if mtype in (3, 4):
@@ -134,6 +138,8 @@ def encode_ascii(mats, numlen=16, digits=9, perline=5, dchar="E", layout="dense"
         return [float(s.replace("D", "E")) for s in strs]
 
     for mi, m in enumerate(mats):
+        layout = layouts[mi] if isinstance(layouts, (list, tuple)) else layouts  # one layout per matrix is allowed
+        numlen, digits, perline = m.get("fmt", fmt0)  # ... and one number format per matrix
         A = np.asarray(m["A"])
         nrow, ncol = A.shape
         mtype = m["mtype"]
@@ -177,7 +183,7 @@ def encode_ascii(mats, numlen=16, digits=9, perline=5, dchar="E", layout="dense"
                     put(j, s, numbers(col[s : s + L], mtype))
         lines.append("%8d%8d%8d" % (ncol + 1, 1, 1))
         lines.append(fortran_e(1.0, numlen, digits, dchar))
-        truth.append(dict(name=m["name"].lower(), shape=(nrow, ncol), form=m["form"], mtype=mtype))
+        truth.append(dict(name=m["name"].lower(), shape=(nrow, ncol), form=m["form"], mtype=mtype, layout=layout))
         expected.append(X)
     return "\n".join(lines) + "\n", truth, expected
 
